@@ -8,7 +8,13 @@ EXTENDS IPText, Json, TLC
 
 Trace == ndJsonDeserialize("ip_trace.ndjson")
 
-CONSTANT Stride
+CONSTANTS Stride,
+          NLines     \* the number of lines the orchestrator wrote into the file
+
+(* The log TLC sees must be the log that was written (a short read would make *)
+(* the judgement vacuous): checked, and printed, before anything else.       *)
+ASSUME TraceComplete == PrintT(<<"TRACE-LINES", Len(Trace), NLines>>) /\ Len(Trace) = NLines
+
 VARIABLE l
 Ev == Trace[l]
 
@@ -17,9 +23,15 @@ LineOK(e) == /\ e.ip  = Address(e.s)
              /\ Accept(Run(Q0, e.s)) = e.ip
 
 (* Lines are independent: Stride interleaved chains, one TLC worker each. *)
-TInit == l \in 1..Stride
+(* TLC evaluates initial states (and their invariants) in its main thread,    *)
+(* whose stack is small: a long line (hundreds of runs, deep recursion) as    *)
+(* one of the first lines of a chunk overflowed it, now and then, depending    *)
+(* on how much had been compiled yet.  So the chains start one step BEFORE     *)
+(* the log, on indices <= 0 that stand for no line; every real line is judged  *)
+(* in a successor state, i.e. by a worker thread (stack size set by -Xss).     *)
+TInit == l \in (1 - Stride)..0
 TNext == l <= Len(Trace) /\ l' = l + Stride
 TSpec == TInit /\ [][TNext]_l
 
-LinesOK == l <= Len(Trace) => LineOK(Ev)
+LinesOK == (l >= 1 /\ l <= Len(Trace)) => LineOK(Ev)
 =============================================================================
